@@ -19,14 +19,14 @@ has `fd.numLocals` slots), the callee's activation reads slot `i` as the `i`-th 
 as `null` beyond the arguments: the state after the `Call` steps, under `GetLocal i`, to the
 state with exactly that value pushed -/
 theorem parameters_and_locals_are_slots {K : List Val} {F : FnDef → Option (List Instr)} {X : Ctxt}
-    {pc : Nat} {vs rest fr g : List Val} {hh : List (List Val)} {fd : FnDef} {id : Nat} {code : List Instr} {i : Nat} {v : Val}
+    {pc : Nat} {vs rest fr g : List Val} {hh : List (List Val)} {aa : Heap} {fd : FnDef} {id : Nat} {code : List Instr} {i : Nat} {v : Val}
     (hcall : codeAt X.code pc [Instr.call vs.length]) (hp : vs.length = fd.numParams) (hF : F fd = some code)
     (hget : codeAt code 0 [Instr.getLocal i])
     (hv : (vs ++ List.replicate (fd.numLocals - vs.length) Val.null)[i]? = some v) :
-    ∃ s1 s2, fstep K F (X.at pc (vs.reverse ++ (.clos fd fr id :: rest)) g hh) = some s1 ∧ fstep K F s1 = some s2 ∧
+    ∃ s1 s2, fstep K F (X.at pc (vs.reverse ++ (.clos fd fr id :: rest)) g hh aa) = some s1 ∧ fstep K F s1 = some s2 ∧
       s2.stk.head? = some v ∧ s2.stk.length = s1.stk.length + 1 ∧
       s1.act.bp = rest.length + 1 ∧ s1.stk.length = s1.act.bp + max fd.numLocals vs.length := by
-  have h1 := fstep_call (K := K) (F := F) (X := X) (g := g) (hp' := hh) (fr := fr) (id := id) (rest := rest) hcall rfl hp hF
+  have h1 := fstep_call (K := K) (F := F) (X := X) (g := g) (hp' := hh) (a := aa) (fr := fr) (id := id) (rest := rest) hcall rfl hp hF
   refine ⟨_, _, h1, fstep_getLocal (X := X.callee pc code fd id (.clos fd fr id :: rest)) (ops := []) hget hv, rfl, ?_, ?_, ?_⟩
   · simp [Ctxt.st, Ctxt.at]
   · simp [Ctxt.st, Ctxt.at, Ctxt.callee]
